@@ -100,6 +100,10 @@ def p_id(t, p):
     q = p + 1
     while is_idchar(at(t, q)):
         q += 1
+    c = at(t, q)
+    if c != '' and c > '\x7f':
+        # a letter-like character glued to a tag name: the name as written is not a legal tag name
+        raise RefReject(q, 'illegal tag name')
     return q, t[p:q]
 
 
